@@ -1,5 +1,5 @@
 (* Props/C02.v — the theorems that decide property C02.  Statements only. *)
-From CKB Require Import Chain.Store Chain.StoreProofs Chain.StoreExamples.
+From CKB Require Import Chain.Store Chain.StoreProofs Chain.StoreExamples Chain.EpochRecord Chain.EpochRecordProofs.
 
 (* Detaching a block (detach_block, then detach_block_cell) is the exact
    inverse of attaching it, on every column: live cells, transaction
@@ -39,6 +39,25 @@ Theorem c02_example_reorg :
   uncles s 2%N = true.
 Proof. exact ex_reorg_result. Qed.
 
+(* The stored current-epoch record (what a restart loads as the snapshot's epoch): after any history of
+   extensions — through any number of attached blocks, verified before (re-attached above a truncated
+   tip, a branch returned to) or not — and reorganisations, the record written by verify_block's rule
+   `new_epoch || has_detached || tip's epoch number != the block's` is the epoch of the tip block. *)
+Theorem c02_epoch_record_follows_tip : forall es, record_ok (erun code_rule einit es).
+Proof. exact record_follows_tip. Qed.
+
+(* F17 (repaired by 8b241df): without the number comparison an extension whose attached part crosses
+   the first block of an epoch and ends on a later block of it leaves the record one epoch behind *)
+Theorem c02_epoch_record_old_rule_refuted :
+  let s := erun old_rule einit [EExtend [true; false]] in
+  tip_eid s = 1 /\ record s = 0 /\ record s <> tip_eid s.
+Proof. exact old_rule_refuted. Qed.
+
+Theorem c02_epoch_record_example :
+  let s := erun code_rule einit [EExtend [false; false]; EExtend [true; false]; EReorg [false]; EExtend [false; true]] in
+  record s = tip_eid s /\ tip_enum s = 2.
+Proof. exact code_rule_example. Qed.
+
 Redirect "out/C02.c02_detach_inverse" Print Assumptions c02_detach_inverse.
 Redirect "out/C02.c02_reorg_is_replay" Print Assumptions c02_reorg_is_replay.
 Redirect "out/C02.c02_replay_wf" Print Assumptions c02_replay_wf.
@@ -46,3 +65,6 @@ Redirect "out/C02.c02_attach_ext" Print Assumptions c02_attach_ext.
 Redirect "out/C02.c02_detach_ext" Print Assumptions c02_detach_ext.
 Redirect "out/C02.c02_example_valid" Print Assumptions c02_example_valid.
 Redirect "out/C02.c02_example_reorg" Print Assumptions c02_example_reorg.
+Redirect "out/C02.c02_epoch_record_follows_tip" Print Assumptions c02_epoch_record_follows_tip.
+Redirect "out/C02.c02_epoch_record_old_rule_refuted" Print Assumptions c02_epoch_record_old_rule_refuted.
+Redirect "out/C02.c02_epoch_record_example" Print Assumptions c02_epoch_record_example.
